@@ -106,6 +106,10 @@ func mkFilter(name string) filter.Filter {
 		return filter.Not(filter.Labels(map[string]string{"x": "1"}))
 	case "nsa":
 		return filter.NSName(nsname.New("ns1", "a"))
+	case "nsp1":
+		return filter.NSName(nsname.New("ns1", ""))
+	case "nsp2":
+		return filter.NSName(nsname.New("ns2", ""))
 	case "anx0":
 		return filter.And(filter.Null(), filter.FN(func(o metav1.Object) bool { return o.GetLabels()["x"] == "0" }))
 	case "anx1":
